@@ -51,3 +51,30 @@ func Uint32() uint32 { return uint32(draw()) }
 func Int63() int64   { return int64(fresh() & 0x7fffffffffffffff) }
 func Intn(n int) int { return int(draw() % uint64(n)) }
 func Seed(int64)     {}
+
+func Uint64() uint64       { return fresh() }
+func Int31() int32         { return int32(draw() & 0x7fffffff) }
+func Int63n(n int64) int64 { return int64(draw() % uint64(n)) }
+func Int31n(n int32) int32 { return int32(draw() % uint64(n)) }
+func Float64() float64     { return float64(draw()%1000) / 1000 }
+func Float32() float32     { return float32(draw()%1000) / 1000 }
+
+// Perm returns the identity permutation (a deterministic member of the set).
+func Perm(n int) []int {
+	p := make([]int, n)
+	for i := range p {
+		p[i] = i
+	}
+	return p
+}
+
+// Shuffle leaves the order unchanged (a deterministic member of the set).
+func Shuffle(n int, swap func(i, j int)) {}
+
+// Read fills p with drawn bytes.
+func Read(p []byte) (int, error) {
+	for i := range p {
+		p[i] = byte(draw())
+	}
+	return len(p), nil
+}
